@@ -52,6 +52,7 @@ def dispatch1 (op : String) (j : Json) : R Json :=
   | "phenoParse" => hPhenoParse j
   | "uniqNames" => hUniqNames j
   | "floatTok" => hFloatTok j
+  | "floatRead" => hFloatRead j
   | "noiseVar" => hNoiseVar j
   | "geneticRaw" => hGeneticRaw j
   | "ldPlan" => hLdPlan j
